@@ -509,6 +509,46 @@ KNOWN_TEXT = {
 }
 
 
+def scalar_stream(rep, pi, rng, count):
+    """Oracle-only stream on the real objects: diagrams with scalar boxes of every kind of value -
+    exact zeros (0, 0.0, 0j), negative, complex, tiny, several of them - next to spiders.  pyzx's
+    own matrix of the exported graph (scalar preserved) equals the diagram's matrix computed by the
+    independent evaluator; in particular a zero scalar gives the zero matrix."""
+    import numpy
+    from discopy.quantum import zx
+    bad = 0
+    for k in range(count):
+        values = [rng.choice([0, 0.0, 0j, -1, 0.5, 2j, -0.25 + 0.5j, 1e-3, 1]) for _ in range(rng.randint(1, 2))]
+        if k < 3:
+            values = [[0], [0.0], [0j]][k]
+        d = zx.Id(1)
+        width = 1
+        for _ in range(rng.randint(0, 2)):
+            m = rng.randint(1, 2)
+            d = d >> rng.choice([zx.Z, zx.X])(width, m, rng.choice([0, 0.25, 0.5])) if width else d
+            width = m if width else width
+        for v in values:
+            d = zx.scalar(v) @ d if rng.random() < 0.5 else d @ zx.scalar(v)
+        rep.count("stream:scalars")
+        what = None
+        try:
+            want = pi.eval_desc(pi.describe_diagram(d))
+            ga = d.to_pyzx()
+            got = pi.graph_matrix(ga)
+            if got.shape != want.shape or not numpy.allclose(got, want, atol=1e-9):
+                what = "the matrix of the exported graph is not the diagram's: scalars %r; |graph| max %.3g, |diagram| max %.3g" % (
+                    values, float(numpy.abs(got).max()), float(numpy.abs(want).max()))
+        except Exception as exc:   # noqa
+            what = "exporting a diagram with scalars %r raised %s: %s" % (values, type(exc).__name__, exc)
+        if what:
+            bad += 1
+            rep.count("oracle:scalars:FAIL")
+            if bad <= 3:
+                rep.violation("to_pyzx with scalar boxes: " + what, {"diagram": repr(d)})
+        else:
+            rep.count("oracle:scalars:pass")
+
+
 def run(tier, seed):
     import pyzx_impl as pi
     rep = Report("C17", tier, seed)
@@ -568,6 +608,7 @@ def run(tier, seed):
         rep.count(("boxes:%d" if kind == "d" else "vertices:%d") % min(nb, 10))
         for _, cls in res:
             rep.count("result:" + cls)
+    scalar_stream(rep, pi, random.Random(seed + 1717), 40 if tier == "quick" else 600)
     base.settle(rep, "C17", proof_ok, "C17")
     return rep.finish(
         rule="corpus (F15 reproducers, docstring example, edge cases); every diagram with dom <= 2 and <= 2 boxes over "
